@@ -290,6 +290,117 @@ def solved_relations(rec, ground, rnd, w):
     return bad
 
 
+def cmdline_distributed(chk, tier):
+    """distributed loads given on the command line (every spelling: conductivity / resistivity, for all
+       objects or per tag in either registration order, insulation per tag with different parameters):
+       the diagonal increments of the real model built by main() must equal the closed forms for the
+       conductor halves the specification (TopologyOn.tla on the projected object list) assigns to each
+       pulse, and no pulse may be attached twice to one load"""
+    import io, contextlib
+    from .c12 import project_input
+    from mininec.mininec import main, Mininec
+    rnd = C.rng('c08-cmdline')
+    n = 40 if tier == 'quick' else 400
+    cases = []
+    for k in range(n):
+        tags = rnd.sample([1, 2, 3, 5, 8], 3)
+        pts = [(0, 0, 10), (4, 0.5, 11), (4.5, 4, 12.5), (1, 6, 14)]
+        argv = ['-f', repr(rnd.choice([3.6, 14.2, 146.0]))]
+        order = [0, 1, 2]
+        rnd.shuffle(order)
+        radii = {}
+        for w in order:
+            a, b = pts[w], pts[w + 1]
+            if rnd.random() < 0.3:
+                a, b = b, a
+            r = rnd.choice([0.0008, 0.001, 0.002])
+            radii[tags[w]] = r
+            argv += ['-w', '%d,%d,%g,%g,%g,%g,%g,%g,%g' % ((tags[w], rnd.choice([2, 3, 4])) + a + b + (r,))]
+        argv.append('--excitation-pulse=1')
+        skin, ins = {}, {}
+        c = rnd.choice(['cond-all', 'res-all', 'cond-tags', 'res-tags', 'mixed-tags', 'none'])
+        if c == 'cond-all':
+            sg = 10 ** rnd.uniform(4, 8)
+            argv.append('--skin-effect-conductivity=%r' % sg)
+            skin = {t: sg for t in tags}
+        elif c == 'res-all':
+            rs = 10 ** rnd.uniform(-8, -4)
+            argv.append('--skin-effect-resistivity=%r' % rs)
+            skin = {t: 1 / rs for t in tags}
+        elif c != 'none':
+            for t in rnd.sample(tags, rnd.choice([1, 2])):
+                if c == 'cond-tags' or (c == 'mixed-tags' and rnd.random() < 0.5):
+                    sg = 10 ** rnd.uniform(4, 8)
+                    argv.append('--skin-effect-conductivity=%r,%d' % (sg, t))
+                    skin[t] = sg
+                else:
+                    rs = 10 ** rnd.uniform(-8, -4)
+                    argv.append('--skin-effect-resistivity=%r,%d' % (rs, t))
+                    skin[t] = 1 / rs
+        c = rnd.choice(['all', 'tags', 'tags', 'none'])
+        if c == 'all':
+            b, er = rnd.uniform(0.003, 0.01), rnd.uniform(1.5, 6)
+            argv.append('--insulation-load=%r,%r' % (b, er))
+            ins = {t: (b, er) for t in tags}
+        elif c == 'tags':
+            for t in rnd.sample(tags, rnd.choice([1, 2, 3])):
+                b, er = rnd.uniform(0.003, 0.01), rnd.uniform(1.5, 6)
+                argv.append('--insulation-load=%r,%r,%d' % (b, er, t))
+                ins[t] = (b, er)
+        out, err = io.StringIO(), io.StringIO()
+        with contextlib.redirect_stdout(out), contextlib.redirect_stderr(err):
+            try:
+                m = main(list(argv), f_err=err, return_mininec=True)
+            except SystemExit:
+                m = None
+        if not isinstance(m, Mininec):
+            raise C.Machinery('distributed-load command line rejected: %s %s' % (argv, (out.getvalue() + err.getvalue())[:200]))
+        cases.append((argv, m, skin, ins, radii))
+    recs = T.spec_records(chk, [project_input(m) for _, m, _, _, _ in cases], False, name='c08-cmdline')
+    for (argv, m, skin, ins, radii), rec in zip(cases, recs):
+        N = len(m.pulses)
+        f = m.f
+        slen = seg_lengths(m)
+        tags = [o['tag'] for o in rec['objs']]
+        exp = np.zeros(N, dtype=complex)
+        mag = np.zeros(N)
+        approx = False
+        for q in range(N):
+            pu = rec['pulses'][q]
+            # (Circuit!Halves: the image half of a grounded pulse is not conductor)
+            for hv in (dict(obj=pu['sa'][0], seg=pu['sa'][1], real=pu['gnd'] != 0),
+                       dict(obj=pu['sb'][0], seg=pu['sb'][1], real=pu['gnd'] != 1)):
+                if not hv['real']:
+                    continue
+                t = tags[hv['obj'] - 1]
+                L = slen[(hv['obj'], hv['seg'])] / 2
+                if t in skin:
+                    zi, akr = zint_per_length(skin[t], radii[t], f)
+                    approx = approx or akr >= 100
+                    exp[q] += zi * L
+                    mag[q] += abs(zi * L)
+                if t in ins:
+                    zz = zins_per_length(radii[t], ins[t][0], ins[t][1], f) * L
+                    exp[q] += zz
+                    mag[q] += abs(zz)
+        m.Z = np.zeros((N, N), dtype=complex)
+        m.compute_impedance_matrix_loads()
+        d = np.diag(m.Z)
+        want = -1j / m.m * exp
+        tol = 2e-2 if approx else 1e-8
+        bad = [q for q in range(N) if abs(d[q] - want[q]) > tol * mag[q] / m.m + 1e-300]
+        chk.case(dict(argv=argv), bool(skin or ins), sample=dict(argv=argv))
+        chk.traces += 1
+        if bad:
+            q = bad[0]
+            chk.violation(dict(kind='cmdline-distributed-diagonal', junction=rec['pulses'][q]['kind'] in ('J1', 'J2')),
+                          dict(argv=argv, pulse=q, ratio=str(d[q] / want[q]) if want[q] else str(d[q]), spec=rec))
+        for l in m.loads:
+            ids = [int(p.idx) for p in l.pulses]
+            if len(ids) != len(set(ids)):
+                chk.violation(dict(kind='pulse-attached-twice-to-one-load'), dict(argv=argv, load=type(l).__name__, pulses=ids))
+
+
 def jobs(chk, tier):
     rnd = C.rng('c08')
     frac = 0.08 if tier == 'quick' else 0.3
@@ -321,6 +432,7 @@ def run(tier):
             chk.violation(dict(kind=mm['what'], grounded=mm.get('grounded'), junction=mm.get('junction'),
                                distributed=(mm.get('distributed') not in (None, 'none')) if 'distributed' in mm else None),
                           dict(input=r['input'], ground=g, info=mm, spec=r))
+    cmdline_distributed(chk, tier)
     return chk.finish(
         rule='one case per final state of Circuit.tla with at least one pulse; seeded load sets (1-3 lumped loads in '
              'random attachment forms plus optionally skin-effect / insulation loads); non-trivial = at least one load; '
